@@ -251,6 +251,76 @@ def genCycles (rng : Rng) (k cycles : Nat) : Rng × Array String :=
   let s := s.drain
   (s.rng, s.lines)
 
+
+/-! ### two handles: clone (C10) and save/reload (C08, C09) -/
+
+/-- continue on two handles that start from the same state (`reloaded`: the second one's allocator restarted):
+    phase A applies the same calls to both, phase B different calls with an `observe` of the other handle -/
+def twoHandles (s0 : GenSt) (reloaded : Bool) (p : Prof) (lenA lenB : Nat) : GenSt :=
+  let s1 : GenSt := { s0 with h := "g1", r := if reloaded then { s0.r with pos := 0 } else s0.r }
+  -- phase A
+  let (s0, s1) := (List.range lenA).foldl (fun (acc : GenSt × GenSt) _ =>
+    let (s0, s1) := acc
+    let (rng, ops) := propose s0 p
+    let s0 := { s0 with rng := rng }
+    -- allocator calls are proposed per handle (the reloaded one may answer differently)
+    let isAlloc := ops.any (fun o => match o with | .nextId => true | _ => false)
+    if isAlloc then
+      let s0' := match s0.tryOps ops with | some x => x | none => s0
+      let s1 := { s1 with rng := s0'.rng, lines := s0'.lines }
+      let ops1 : List Op := match s1.r.nextId s1.cap with
+        | some (_, i) => [.nextId, .add i]
+        | none => []
+      let s1' := match s1.tryOps ops1 with | some x => x | none => s1
+      ({ s0' with rng := s1'.rng, lines := s1'.lines }, s1')
+    else
+      match s0.tryOps ops with
+      | none => (s0, s1)
+      | some s0' =>
+        let s1 := { s1 with rng := s0'.rng, lines := s0'.lines }
+        match s1.tryOps ops with
+        | some s1' => ({ s0' with rng := s1'.rng, lines := s1'.lines }, s1')
+        | none => (s0', s1)) (s0, s1)
+  -- phase B
+  let (s0, s1) := (List.range lenB).foldl (fun (acc : GenSt × GenSt) _ =>
+    let (s0, s1) := acc
+    let (rng, side) := s0.rng.below 2
+    if side = 0 then
+      let s0 := ({ s0 with rng := rng }).stepRandom p
+      let s0 := { s0 with lines := s0.lines.push "observe g1" }
+      (s0, { s1 with rng := s0.rng, lines := s0.lines })
+    else
+      let s1 := ({ s1 with rng := rng, lines := s0.lines }).stepRandom p
+      let s1 := { s1 with lines := s1.lines.push "observe g0" }
+      ({ s0 with rng := s1.rng, lines := s1.lines }, s1)) (s0, s1)
+  let s0 := s0.drain
+  let s1 := ({ s1 with rng := s0.rng, lines := s0.lines }).drain
+  { s0 with rng := s1.rng, lines := s1.lines }
+
+def genFork (rng : Rng) (len : Nat) : Rng × Array String :=
+  let (rng, n, cap) := pickConfig rng
+  let s := GenSt.start rng n cap
+  let (rng, k) := s.rng.below 3
+  let s := { s with rng := rng }
+  let p := if k = 0 then profAlloc else if k = 1 then profCycle else profGc
+  let s := (List.range (len / 2)).foldl (fun s _ => s.stepRandom p) s
+  let s := { s with lines := s.lines.push "clone g0 g1" }
+  let s := twoHandles s false p (len / 4) (len / 4)
+  (s.rng, s.lines)
+
+def genSer (rng : Rng) (len : Nat) (cutStep : Nat) : Rng × Array String :=
+  let (rng, n) := rng.pick [1, 2, 4, 16]
+  let (rng, cap) := rng.pick [3, 5, 8, 12, 20, 33, 64]
+  let s := GenSt.start rng n cap
+  let (rng, k) := s.rng.below 2
+  let s := { s with rng := rng }
+  let p := if k = 0 then profRw else profGc
+  let s := (List.range (len / 2)).foldl (fun s _ => s.stepRandom p) s
+  let s := { s with lines := (s.lines.push "save g0").push s!"loadcuts g0 {cutStep}" }
+  let s := { s with lines := s.lines.push "reload g0 g1" }
+  let s := twoHandles s true p (len / 3) (len / 6)
+  (s.rng, s.lines)
+
 def genProfile (profile : String) (seed : Nat) (count len : Nat) : Array String := Id.run do
   if profile = "hex15" then return genHex15 seed len count
   if profile = "concat16" then return genConcat16 seed len
@@ -269,6 +339,9 @@ def genProfile (profile : String) (seed : Nat) (count len : Nat) : Array String 
         else if i % 3 = 1 then genBigGroup rng (14 + (i / 3) % 3) len
         else genRandomHistory rng profGc len
       | "cycle" => genCycles rng (i % 14) len
+      | "fork" => genFork rng len
+      | "ser" => genSer rng len 7
+      | "serall" => genSer rng len 1
       | _ => (rng, #[])
     rng := r'
     out := out ++ lines
